@@ -148,6 +148,7 @@ def _init(fresh):
     from OpenPinch.lib.schema import TargetInput
     _W.update(service=pinch_analysis_service, PinchProblem=PinchProblem, TargetInput=TargetInput, fresh=fresh,
               models={p: TargetInput.model_validate(copy.deepcopy(PROBLEMS[p])) for p in PROBLEMS})
+    _W["model_snap"] = {p: m.model_dump_json() for p, m in _W["models"].items()}
 
 
 def materialise(p, ch, d: Path):
@@ -155,7 +156,7 @@ def materialise(p, ch, d: Path):
     import pandas as pd
     prob = PROBLEMS[p]
     if ch == "model":
-        return _W["TargetInput"].model_validate(copy.deepcopy(prob))
+        return _W["models"][p]          # the caller's own long-lived model object, reused across loads and histories
     if ch == "json":
         f = d / "Site.json"; f.write_text(json.dumps(prob)); return f
     if ch == "units_json":
@@ -245,6 +246,12 @@ def replay_history(case):
                         last_target = wp.results
             except Exception as e:
                 bad(("C16." if kind in ("load", "target", "export") else "C11.") + "raises", exc=repr(e)[:300])
+            if kind in ("target", "export"):
+                for p_, m_ in _W["models"].items():
+                    if m_.model_dump_json() != _W["model_snap"][p_]:
+                        bad("C11.input_unchanged", problem=p_, via="wrapper")
+                        bad("C16.model_channel_left_unchanged", problem=p_)
+                        _W["models"][p_] = _W["TargetInput"].model_validate(copy.deepcopy(PROBLEMS[p_]))   # restore for the next history
             for r_, d_ in earlier:
                 if digest(r_) != d_:
                     bad("C11.earlier_results_unchanged")
